@@ -371,11 +371,12 @@ def match_table(cs, wanted, deep_ref=None):
     1. exact normalised text; 2. same operator and same integer bound, unique; 3. same shape with local names wildcarded, provided
     the number of unmatched checks of that shape equals the number of unmatched table entries of that shape (no guessing)."""
     texts = [norm(c["subject"], c["op"], c["other"]) for c in cs]
+    # `a < b` written as `b > a` is the same check (only relevant when neither side is a constant: norm() already puts constants right)
+    flips = [norm(c["other"], FLIP[c["op"]], c["subject"]) if not isinstance(c["other"], int) and c["other"] is not None else None for c in cs]
     used = set()
     res = {}
     for cond, n in wanted:
-        idx = [i for i, t in enumerate(texts) if t == cond and i not in used][:max(n, 1) if n else 0]
-        idx = [i for i, t in enumerate(texts) if t == cond and i not in used]
+        idx = [i for i, t in enumerate(texts) if (t == cond or flips[i] == cond) and i not in used]
         if len(idx) >= n:
             res[cond] = [cs[i] for i in idx]
             used.update(idx)
